@@ -291,4 +291,66 @@ theorem refinePoint_bounded_of_nonneg_map (h w : Nat) (img : Nat → Nat → R) 
         single_le_sum (f := fun a => ∑ b ∈ range p, patch h w img p x y a b)
           (fun a _ => sum_nonneg fun b _ => hP a b) hr
 
+/-! ### any patch with a non-zero sum: displacement ≤ half span × Σ|P| / |ΣP| -/
+
+/-- `Σ_a Σ_b |P a b|` -/
+def patchAbsSum (p : Nat) (P : Nat → Nat → R) : R := ∑ a ∈ range p, ∑ b ∈ range p, |P a b|
+
+theorem abs_patchSum_le (p : Nat) (P : Nat → Nat → R) : |patchSum p P| ≤ patchAbsSum p P := by
+  rw [patchSum_eq, patchAbsSum]
+  refine le_trans (abs_sum_le_sum_abs _ _) (sum_le_sum fun a _ => abs_sum_le_sum_abs _ _)
+
+theorem abs_xNum_le_abs (p : Nat) (P : Nat → Nat → R) : |xNum p P| ≤ halfSpan R p * patchAbsSum p P := by
+  rw [xNum_eq, patchAbsSum, mul_sum]
+  refine le_trans (abs_sum_le_sum_abs _ _) (sum_le_sum fun a _ => ?_)
+  rw [mul_sum]
+  refine le_trans (abs_sum_le_sum_abs _ _) (sum_le_sum fun b hb => ?_)
+  rw [abs_mul]
+  exact mul_le_mul_of_nonneg_right (abs_gv_le (mem_range.mp hb)) (abs_nonneg _)
+
+theorem abs_yNum_le_abs (p : Nat) (P : Nat → Nat → R) : |yNum p P| ≤ halfSpan R p * patchAbsSum p P := by
+  rw [yNum_eq_xNum_transpose]
+  have : patchAbsSum p (fun a b => P b a) = patchAbsSum p P := by
+    unfold patchAbsSum; rw [sum_comm]
+  rw [← this]
+  exact abs_xNum_le_abs p _
+
+theorem integralOffsets_some_iff (p : Nat) (P : Nat → Nat → R) (o : R × R) :
+    integralOffsets p P = some o ↔ patchSum p P ≠ 0 ∧ o = (xNum p P / patchSum p P, yNum p P / patchSum p P) := by
+  unfold integralOffsets
+  simp only
+  by_cases hz : patchSum p P < 0 ∨ 0 < patchSum p P
+  · rw [if_pos hz]
+    have : patchSum p P ≠ 0 := by rcases hz with h | h <;> [exact ne_of_lt h; exact ne_of_gt h]
+    simp only [Option.some.injEq, this, ne_eq, not_false_eq_true, true_and]
+    exact eq_comm
+  · rw [if_neg hz]
+    have : patchSum p P = 0 := by
+      rcases lt_trichotomy (patchSum p P) 0 with h | h | h
+      · exact absurd (Or.inl h) hz
+      · exact h
+      · exact absurd (Or.inr h) hz
+    simp [this]
+
+/-- whatever the signs in the patch: a refined point is displaced by at most
+`(p-1)/2 · Σ|P| / |ΣP|` in x and in y -/
+theorem refinePoint_displacement_le (h w : Nat) (img : Nat → Nat → R) (p x y : Nat) (px py : R)
+    (hpt : refinePoint h w img p x y = some (px, py)) :
+    patchSum p (patch h w img p x y) ≠ 0 ∧
+    |px - x| ≤ halfSpan R p * patchAbsSum p (patch h w img p x y) / |patchSum p (patch h w img p x y)| ∧
+    |py - y| ≤ halfSpan R p * patchAbsSum p (patch h w img p x y) / |patchSum p (patch h w img p x y)| := by
+  unfold refinePoint at hpt
+  rw [Option.map_eq_some_iff] at hpt
+  obtain ⟨o, ho, hxy⟩ := hpt
+  rw [integralOffsets_some_iff] at ho
+  obtain ⟨hz, rfl⟩ := ho
+  simp only [Prod.mk.injEq] at hxy
+  obtain ⟨rfl, rfl⟩ := hxy
+  have hpos : 0 < |patchSum p (patch h w img p x y)| := abs_pos.mpr hz
+  refine ⟨hz, ?_, ?_⟩
+  · rw [add_sub_cancel_left, abs_div, div_le_div_iff_of_pos_right hpos]
+    exact abs_xNum_le_abs p _
+  · rw [add_sub_cancel_left, abs_div, div_le_div_iff_of_pos_right hpos]
+    exact abs_yNum_le_abs p _
+
 end SleapVerif.Peaks
